@@ -641,12 +641,15 @@ def t_boundaries(ctx):
         'UUID': ['00000000-0000-0000-0000-000000000000',
                  'ffffffff-ffff-ffff-ffff-ffffffffffff',
                  '12345678-1234-5678-1234-567812345678'],
-        'VarIntPrefixedByteArray': [b'', b'\0', bytes(127), bytes(128),
+        'VarIntPrefixedByteArray': [b'', b'\0', bytearray(b'\x01\xff'),
+                                    bytes(127), bytes(128),
                                     bytes(range(256)) * 64, bytes(16383),
                                     bytes(16384)],
-        'ShortPrefixedByteArray': [b'', b'\xff', bytes(255), bytes(256),
+        'ShortPrefixedByteArray': [b'', b'\xff', bytearray(b'xyz'),
+                                   bytes(255), bytes(256),
                                    bytes(32767)],
-        'TrailingByteArray': [b'', b'\0', bytes(range(256))],
+        'TrailingByteArray': [b'', b'\0', bytes(range(256)),
+                              bytearray(b'abc')],
         'FixedPointInteger': [0.0, 1 / 32, -1 / 32, (2 ** 31 - 1) / 32,
                               -2 ** 31 / 32, 1.5, -1.5, 100.03125, 0.99 / 32,
                               -0.99 / 32, 12.345],
